@@ -995,3 +995,39 @@ def per_trip_objects_registered(chk):
                    detail="`%s` is bound inside `for %s in %s` and stored by `%s` after the loop: only the last one is kept (the others are never started / polled / stopped)"
                           % (nm, src(lp.target), src(lp.iter)[:40], src(c)[:60]), construct=ident, text="only the last %s registered" % nm)
     chk.ob("LASTONLY-0", "loops examined for per-trip objects registered after the loop (%d functions)" % n, True, "mpf:1", nontrivial=False)
+
+
+# -------------------------------------------------------------------------------------------------------- ITERMUT-0
+_POS_ITERMUT = """
+class A:
+    def done(self):
+        for callback in self.stop_callbacks:
+            self.stop_callbacks.remove(callback)
+            callback()
+"""
+# loops of the pinned tree that delete from the list they enumerate (read: at most one element can match, so nothing is skipped)
+_ITERMUT_CONFIRMED = {
+    "mpf/config_players/variable_player.py::VariablePlayer.clear_context": "one block entry per (priority, context): adjacent matches need one context at two priorities",
+    "mpf/platforms/p_roc_common.py::PROCBasePlatform._add_hw_rule": "at most one rule per (switch, coil) is ever in the list: the loop is what guarantees it",
+}
+
+
+def containers_not_mutated_while_iterated(chk):
+    from sa.helpers import mutation_while_iterating
+    pos = ast.parse(_POS_ITERMUT).body[0].body[0]
+    if len(mutation_while_iterating(pos)) != 1:
+        chk.pending_errors.append("ITERMUT-0 detector does not match its positive example")
+    n = 0
+    for ident in sorted(_anchor_idents(chk)):
+        rel, qual = ident.split("::", 1)
+        f = chk.repo.try_func(rel, qual)
+        if f is None:
+            continue
+        n += 1
+        if ident in _ITERMUT_CONFIRMED:
+            continue
+        for lp, x, what in mutation_while_iterating(f.node):
+            chk.ob("ITERMUT-0", "a for loop does not add to or remove from the container it walks (walk a copy, or rebuild)", False, f.where(x),
+                   detail="`for %s in %s` with %s in its body: the element after each removed one is skipped (a dict raises RuntimeError)"
+                          % (src(lp.target), src(lp.iter)[:50], what), construct=ident, text="container changed while iterated: " + what[:50])
+    chk.ob("ITERMUT-0", "for loops examined for changes to the container they walk (%d functions)" % n, True, "mpf:1", nontrivial=False)
